@@ -291,6 +291,8 @@ class Flattener:
 
     # ------------------------------------------------------------------ comprehensions holding an inlinable call
     def _has_inlinable_call(self, e: ast.AST, ctx: FuncInfo, stack, rename) -> bool:
+        if isinstance(e, (ast.ListComp, ast.SetComp, ast.DictComp, ast.GeneratorExp)) and _is_gen_call(self.repo, ctx, e.generators[0].iter):
+            return True
         for n in ast.walk(e):
             if isinstance(n, ast.Call):
                 probe = self._resolve_ctx_call(ctx, n, rename)
@@ -429,7 +431,12 @@ class Flattener:
     # ------------------------------------------------------------------ entry
     def run(self) -> FuncInfo:
         fn = copy.deepcopy(self.f.node)
-        fn.body = self._flatten_block(normalise_body(list(fn.body)), self.f, (self.f.qn,), 1)
+        fn.body = self._flatten_block(_loops_over_generators(self.repo, self.f, normalise_body(list(fn.body))), self.f, (self.f.qn,), 1)
+        try:
+            if expand_generators(self.repo, self.f, fn, (self.f.qn,)):
+                self.inlined.append("<generator helpers>")
+        except Exception:
+            pass
         if self.inlined:
             specialise(fn)
         ast.fix_missing_locations(fn)
@@ -515,6 +522,325 @@ def specialise(fn: ast.FunctionDef) -> None:
                     n.body = [ast.Pass()]
         if not changed[0]:
             return
+
+
+def _is_gen_call(repo: Repo, f: FuncInfo, e: ast.AST) -> bool:
+    try:
+        return isinstance(e, ast.Call) and _resolve_generator(repo, f, e) is not None
+    except Exception:
+        return False
+
+
+def _loops_over_generators(repo: Repo, f: FuncInfo, body: List[ast.stmt]) -> List[ast.stmt]:
+    """other ways of consuming a private generator helper are turned into a `for` loop first:
+    X.update(g()) / X.extend(g()) / x = list(g()) | set(g()) | deque(g()) / comprehensions whose first iterable is g()"""
+
+    class T(ast.NodeTransformer):
+        def visit_FunctionDef(self, n):
+            return n
+
+        visit_AsyncFunctionDef = visit_Lambda = visit_FunctionDef
+
+        def visit_Expr(self, st):
+            c = st.value
+            if isinstance(c, ast.Call) and isinstance(c.func, ast.Attribute) and c.func.attr in ("update", "extend") and len(c.args) == 1 \
+                    and isinstance(c.func.value, (ast.Name, ast.Attribute)) and _is_gen_call(repo, f, c.args[0]):
+                n = next(_counter)
+                var = f"__item__c{n}"
+                meth = "add" if c.func.attr == "update" else "append"
+                call = ast.Call(func=ast.Attribute(value=copy.deepcopy(c.func.value), attr=meth, ctx=ast.Load()), args=[ast.Name(id=var, ctx=ast.Load())], keywords=[])
+                loop = ast.For(target=ast.Name(id=var, ctx=ast.Store()), iter=c.args[0], body=[ast.Expr(value=call)], orelse=[], lineno=st.lineno)
+                return ast.fix_missing_locations(ast.copy_location(loop, st))
+            return st
+
+        def _build(self, st, value, make_final):
+            if isinstance(value, ast.Call) and isinstance(value.func, ast.Name) and value.func.id in ("list", "set", "tuple", "deque", "sorted") and len(value.args) == 1 \
+                    and not value.keywords and _is_gen_call(repo, f, value.args[0]):
+                n = next(_counter)
+                tmp, var = f"__coll__c{n}", f"__item__c{n}"
+                is_set = value.func.id == "set"
+                init = ast.Call(func=ast.Name(id="set", ctx=ast.Load()), args=[], keywords=[]) if is_set else ast.List(elts=[], ctx=ast.Load())
+                add = ast.Call(func=ast.Attribute(value=ast.Name(id=tmp, ctx=ast.Load()), attr="add" if is_set else "append", ctx=ast.Load()),
+                               args=[ast.Name(id=var, ctx=ast.Load())], keywords=[])
+                loop = ast.For(target=ast.Name(id=var, ctx=ast.Store()), iter=value.args[0], body=[ast.Expr(value=add)], orelse=[], lineno=st.lineno)
+                final_val: ast.expr = ast.Name(id=tmp, ctx=ast.Load())
+                if value.func.id in ("sorted", "deque", "tuple"):
+                    final_val = ast.Call(func=ast.Name(id=value.func.id, ctx=ast.Load()), args=[final_val], keywords=[])
+                out = [ast.Assign(targets=[ast.Name(id=tmp, ctx=ast.Store())], value=init, lineno=st.lineno), loop, make_final(final_val)]
+                return [ast.fix_missing_locations(ast.copy_location(x, st)) for x in out]
+            if isinstance(value, (ast.ListComp, ast.SetComp, ast.GeneratorExp)) and _is_gen_call(repo, f, value.generators[0].iter) and not isinstance(value, ast.GeneratorExp):
+                return None     # handled by the comprehension expansion of the flattener (see _has_inlinable_call)
+            return None
+
+        def visit_Assign(self, st):
+            r = self._build(st, st.value, lambda v: ast.Assign(targets=st.targets, value=v, lineno=st.lineno))
+            return r if r is not None else st
+
+        def visit_Return(self, st):
+            if st.value is None:
+                return st
+            r = self._build(st, st.value, lambda v: ast.Return(value=v))
+            return r if r is not None else st
+
+    out: List[ast.stmt] = []
+    t = T()
+    for st in body:
+        r = t.visit(st)
+        out.extend(r if isinstance(r, list) else [r])
+    return out
+
+
+# =============================================================================================== generator helpers
+LOOPS = (ast.For, ast.While, ast.AsyncFor)
+SCOPES = (ast.FunctionDef, ast.AsyncFunctionDef, ast.Lambda, ast.ClassDef)
+
+
+# ------------------------------------------------------------------------------------------------ small AST helpers
+def _walk_scope(node: ast.AST):
+    """ast.walk that does not enter nested function / class definitions"""
+    todo = [node]
+    while todo:
+        n = todo.pop()
+        yield n
+        for ch in ast.iter_child_nodes(n):
+            if not isinstance(ch, SCOPES):
+                todo.append(ch)
+
+
+def _own_jumps(body: List[ast.stmt]) -> List[ast.stmt]:
+    """break / continue statements that belong to the loop whose body this is"""
+    out = []
+
+    def rec(stmts):
+        for s in stmts:
+            if isinstance(s, (ast.Break, ast.Continue)):
+                out.append(s)
+            if isinstance(s, LOOPS) or isinstance(s, SCOPES):
+                if isinstance(s, LOOPS):
+                    rec(s.orelse)      # the else branch of an inner loop still belongs to the outer one
+                continue
+            for fld in ("body", "orelse", "finalbody"):
+                sub = getattr(s, fld, None)
+                if isinstance(sub, list) and sub and isinstance(sub[0], ast.stmt):
+                    rec(sub)
+            if isinstance(s, ast.Try):
+                for h in s.handlers:
+                    rec(h.body)
+            if isinstance(s, ast.Match):
+                for c in s.cases:
+                    rec(c.body)
+
+    rec(body)
+    return out
+
+
+def _map_blocks(node: ast.AST, fn) -> None:
+    """apply fn(list of statements) -> list of statements to every statement list below node (innermost first)"""
+    for fld in ("body", "orelse", "finalbody"):
+        sub = getattr(node, fld, None)
+        if isinstance(sub, list) and sub and isinstance(sub[0], ast.stmt):
+            for s in sub:
+                if not isinstance(s, SCOPES):
+                    _map_blocks(s, fn)
+            setattr(node, fld, fn(sub))
+    if isinstance(node, ast.Try):
+        for h in node.handlers:
+            for s in h.body:
+                _map_blocks(s, fn)
+            h.body = fn(h.body)
+    if isinstance(node, ast.Match):
+        for c in node.cases:
+            for s in c.body:
+                _map_blocks(s, fn)
+            c.body = fn(c.body)
+
+
+def _jump(label: str, at: ast.AST) -> ast.stmt:
+    j = ast.copy_location(InlineJump(), at)
+    j.label = label
+    return j
+
+
+def _block(label: str, body: List[ast.stmt], at: ast.AST) -> ast.stmt:
+    b = ast.copy_location(InlineBlock(test=ast.Constant(value=True), body=body or [ast.Pass()], orelse=[]), at)
+    b.label = label
+    return b
+
+
+class _JumpRewriter(ast.NodeTransformer):
+    """replace the given break / continue / return statements (by identity) with InlineJumps"""
+
+    def __init__(self, repl: Dict[int, str]):
+        self.repl = repl
+
+    def generic_visit(self, node):
+        if isinstance(node, SCOPES):
+            return node
+        return super().generic_visit(node)
+
+    def visit(self, node):
+        if id(node) in self.repl:
+            return _jump(self.repl[id(node)], node)
+        return super().visit(node)
+
+
+# ------------------------------------------------------------------------------------------------ generator expansion
+class _GRenamer(ast.NodeTransformer):
+    def __init__(self, mapping):
+        self.m = mapping
+
+    def visit_Name(self, n):
+        if n.id in self.m:
+            return ast.copy_location(ast.Name(id=self.m[n.id], ctx=n.ctx), n)
+        return n
+
+
+def _resolve_generator(repo: Repo, f: FuncInfo, call: ast.Call) -> Optional[Tuple[FuncInfo, bool]]:
+    """(generator function of the repository, receiver is self) for `self.g(..)` / `g(..)` / `Class.g(..)`"""
+    fn = call.func
+    callee = None
+    recv_self = False
+    if isinstance(fn, ast.Attribute) and isinstance(fn.value, ast.Name):
+        if f.cls and fn.value.id == (f.self_name or "self"):
+            callee = repo.find_method(f.cls, fn.attr)
+            recv_self = True
+        elif fn.value.id in repo.classes:
+            callee = repo.find_method(fn.value.id, fn.attr)
+            if callee is not None and not callee.static:
+                callee = None
+        elif f.cls and f.static and fn.value.id == f.cls:
+            callee = repo.find_method(f.cls, fn.attr)
+    elif isinstance(fn, ast.Name):
+        r = repo.lookup(f.mod.name, fn.id)
+        if r and r[0] == "func":
+            callee = repo.funcs.get(f"{repo.mods[r[2]].short}::{fn.id}")
+    if callee is None or callee.qn == f.qn or not _is_private(callee.name):
+        return None
+    if any(isinstance(a, ast.Starred) for a in call.args) or any(k.arg is None for k in call.keywords):
+        return None
+    if not any(isinstance(n, (ast.Yield, ast.YieldFrom)) for n in _walk_scope(callee.node) if n is not callee.node):
+        return None
+    if callee.node.decorator_list and any(not (isinstance(d, ast.Name) and d.id == "staticmethod") for d in callee.node.decorator_list):
+        return None
+    if callee.is_method and not recv_self:
+        return None
+    return callee, recv_self
+
+
+def _expand_one(repo: Repo, f: FuncInfo, loop: ast.For, stack: Tuple[str, ...]) -> Optional[List[ast.stmt]]:
+    if not isinstance(loop, ast.For) or loop.orelse or not isinstance(loop.iter, ast.Call):
+        return None
+    res = _resolve_generator(repo, f, loop.iter)
+    if res is None:
+        return None
+    callee, recv_self = res
+    if callee.qn in stack:
+        return None
+    gen = flatten(repo, callee)
+    gfn = copy.deepcopy(gen.node)
+    expand_generators(repo, gen, gfn, stack + (callee.qn,))
+    body = list(gfn.body)
+    if body and isinstance(body[0], ast.Expr) and isinstance(body[0].value, ast.Constant) and isinstance(body[0].value.value, str):
+        body = body[1:]
+    # every yield must be a statement of its own
+    ystmts = [s for s in _walk_scope(gfn) if isinstance(s, ast.Expr) and isinstance(s.value, (ast.Yield, ast.YieldFrom))]
+    yexprs = [n for n in _walk_scope(gfn) if isinstance(n, (ast.Yield, ast.YieldFrom))]
+    if len(ystmts) != len(yexprs) or not ystmts:
+        return None
+    n = next(_counter)
+    glabel = f"g{n}:{callee.qn}"
+    # locals of the generator get fresh names, parameters are bound by assignments
+    names: Set[str] = set()
+    for x in _walk_scope(gfn):
+        if isinstance(x, ast.Name) and isinstance(x.ctx, ast.Store):
+            names.add(x.id)
+        elif isinstance(x, ast.ExceptHandler) and x.name:
+            names.add(x.name)
+    params = list(callee.params)
+    names |= set(params)
+    mapping = {x: f"{x}__g{n}" for x in names}
+    if callee.is_method:
+        mapping[params[0]] = f.self_name or "self"
+        params = params[1:]
+    bound: Dict[str, ast.AST] = {}
+    call = loop.iter
+    for p_, a in zip(params, call.args):
+        bound[p_] = a
+    for k in call.keywords:
+        bound[k.arg] = k.value
+    pre: List[ast.stmt] = []
+    for p_ in params:
+        if p_ in bound:
+            v = copy.deepcopy(bound[p_])
+        elif p_ in callee.defaults:
+            v = copy.deepcopy(callee.defaults[p_])
+        else:
+            return None
+        pre.append(ast.copy_location(ast.Assign(targets=[ast.Name(id=mapping[p_], ctx=ast.Store())], value=v, lineno=call.lineno), call))
+    # the generator's returns leave the whole expansion
+    rets = {id(s): glabel for s in _walk_scope(gfn) if isinstance(s, ast.Return)}
+    holder = ast.Module(body=body, type_ignores=[])
+    if rets:
+        holder = _JumpRewriter(rets).visit(holder)
+    holder = _GRenamer(mapping).visit(holder)
+    own = _own_jumps(loop.body)
+    if any(isinstance(o, ast.Break) for o in own) and any(isinstance(y, ast.YieldFrom) for y in yexprs):
+        return None
+
+    def body_copy(at: ast.AST) -> List[ast.stmt]:
+        k = next(_counter)
+        blabel = f"b{k}:{callee.qn}"
+        tmp = ast.Module(body=copy.deepcopy(loop.body), type_ignores=[])
+        repl = {}
+        for o, c_ in zip(_own_jumps(loop.body), _own_jumps(tmp.body)):
+            repl[id(c_)] = glabel if isinstance(o, ast.Break) else blabel
+        if repl:
+            tmp = _JumpRewriter(repl).visit(tmp)
+            return [_block(blabel, tmp.body, at)]
+        return tmp.body
+
+    def replace(stmts: List[ast.stmt]) -> List[ast.stmt]:
+        out: List[ast.stmt] = []
+        for s in stmts:
+            if isinstance(s, ast.Expr) and isinstance(s.value, ast.Yield):
+                val = s.value.value if s.value.value is not None else ast.Constant(value=None)
+                out.append(ast.copy_location(ast.Assign(targets=[copy.deepcopy(loop.target)], value=val, lineno=s.lineno), s))
+                out.extend(body_copy(s))
+            elif isinstance(s, ast.Expr) and isinstance(s.value, ast.YieldFrom):
+                out.append(ast.copy_location(ast.For(target=copy.deepcopy(loop.target), iter=s.value.value, body=copy.deepcopy(loop.body), orelse=[],
+                                                     lineno=s.lineno), s))
+            else:
+                out.append(s)
+        return out
+
+    _map_blocks(holder, replace)
+    stmts = pre + list(holder.body)
+    if rets or any(isinstance(o, ast.Break) for o in own):
+        stmts = [_block(glabel, stmts, loop)]
+    for s in stmts:
+        ast.fix_missing_locations(s)
+    return stmts
+
+
+def expand_generators(repo: Repo, f: FuncInfo, fn: ast.AST, stack: Tuple[str, ...]) -> bool:
+    """`for x in self._gen(..): BODY` over a private generator helper -> the generator's body with every `yield e` replaced by
+    `x = e; BODY` (break / continue / the generator's return become jumps)"""
+    changed = [False]
+
+    def rewrite(stmts: List[ast.stmt]) -> List[ast.stmt]:
+        out: List[ast.stmt] = []
+        for s in stmts:
+            new = _expand_one(repo, f, s, stack) if isinstance(s, ast.For) else None
+            if new is None:
+                out.append(s)
+            else:
+                changed[0] = True
+                out.extend(new)
+        return out
+
+    _map_blocks(fn, rewrite)
+    return changed[0]
+
 
 
 _cache: Dict[tuple, FuncInfo] = {}
